@@ -103,6 +103,14 @@ Theorem C12_drained_return_notified : forall W cap early ls s s', run W cap earl
   forall c, In c (known s') -> notified s' c = true.
 Proof. exact ShutdownProofs.c12_drained_return_notified. Qed.
 
+(* the notifying tick is per connection: connection c gets the message iff c itself is in the table and not closed,
+   whatever the other connections are, however many, in whatever order, and whether or not the writes to them
+   succeed (clients that reset their connection are, for the server, connections like the others) *)
+Theorem C12_notifying_tick_per_connection : forall W cap early s s', step W cap early s LPollBegin = Some s' ->
+  listen s = 1 -> listen s' = 2 /\
+  forall c, notified s' c = notified s c || (inmap s c && negb (cstate_eqb (cst s c) CClosed)).
+Proof. exact ShutdownProofs.c12_notifying_tick_per_connection. Qed.
+
 (* after the first tick with the listener down every connection still in the table has the message *)
 Theorem C12_all_open_notified : forall W cap early ls s, run W cap early init ls = Some s -> listen s = 2 ->
   forall c, inmap s c = true -> cst s c <> CClosed -> notified s c = true.
@@ -153,6 +161,7 @@ Print Assumptions C12_notification_partial.
 Print Assumptions C12_notification_refuted.
 Print Assumptions C12_close_step_notified.
 Print Assumptions C12_drained_return_notified.
+Print Assumptions C12_notifying_tick_per_connection.
 Print Assumptions C12_all_open_notified.
 Print Assumptions C12_drained_return_sound.
 Print Assumptions C12_drained_return_enabled.
